@@ -134,7 +134,7 @@ class History:
 
 
 def in_context(use_args, body):
-    assert obs.stack_depth() == 0, "harness: context stack not empty at case start"
+    obs.reset_state()
     if use_args:
 
         @jaxtyped(typechecker=None)
